@@ -255,6 +255,101 @@ static int asmCase(vh::Rng& g, bool thorough) {
     return 0;
 }
 
+// ---------------------------------------------------------------------------------------------------------------------
+// Coordinate-bounds classes (restrictQ on 0, 1, 2, 3+ different mobilized bodies x {all free, a bounded q locked, a bounded
+// mobilizer fully locked, a bound added then removed with unrestrictQ} x marker target {inside all boxes, outside the box of
+// the lowest-index / a middle / the highest-index restricted mobilizer}).  Markers come from a reachable configuration that
+// lies OUTSIDE the chosen box, so that bound is active at the solution.  assemble(), then track() after moving the target.
+static int boundsCase(vh::Rng& g, int nRclass, int whichReq, int variant) {
+    Model M; const int nb = 4 + g.below(2);
+    buildTree(g, M, nb);
+    M.system.realizeTopology();
+    State start = M.system.getDefaultState(); M.matter.setUseEulerAngles(start, true); M.system.realizeModel(start);
+    const int nq = start.getNQ();
+    for (int i = 0; i < nq; ++i) start.updQ()[i] = g.range(-0.4, 0.4);
+    M.system.realize(start, Stage::Position);
+    // restricted mobilizers: nRclass 0,1,2,3 (3 = three or more)
+    int nR = nRclass < 3 ? nRclass : std::min(nb, 3 + g.below(2));
+    std::vector<int> bodies; for (int b = 1; b <= nb; ++b) bodies.push_back(b);
+    for (int i = (int)bodies.size() - 1; i > 0; --i) std::swap(bodies[i], bodies[g.below(i + 1)]);
+    std::vector<int> rb(bodies.begin(), bodies.begin() + nR); std::sort(rb.begin(), rb.end());     // ascending mobilized body index
+    Assembler asmb(M.system); const double tol = 1e-6; asmb.setErrorTolerance(tol); asmb.setAccuracy(1e-6);
+    std::vector<int> kind(nq, 0); std::vector<double> lo(nq, -Infinity), hi(nq, Infinity);
+    std::vector<int> lockedList; std::vector<std::array<double, 3> > ranges;
+    std::vector<std::vector<int> > boundedQ(nR);
+    for (int r = 0; r < nR; ++r) { const MobilizedBody& mb = M.mob[rb[r]]; int n = mb.getNumQ(start), q0 = (int)mb.getFirstQIndex(start);
+        int cnt = 1 + (n > 1 && g.coin() ? 1 : 0);
+        for (int c = 0; c < cnt; ++c) { int qi = c == 0 ? g.below(n) : (boundedQ[r][0] - q0 + 1) % n; int q = q0 + qi;
+            double l = start.getQ()[q] - g.range(0.05, 0.2), h = start.getQ()[q] + g.range(0.05, 0.2);
+            asmb.restrictQ(mb.getMobilizedBodyIndex(), MobilizerQIndex(qi), l, h);
+            kind[q] = 2; lo[q] = l; hi[q] = h; boundedQ[r].push_back(q); } }
+    static const char* vname[] = {"allFree", "boundedQLocked", "boundedMobodLocked", "unrestricted"};
+    if (nR == 0 && (variant == 1 || variant == 2)) variant = 0;
+    if (variant == 1) { int r = g.below(nR); int q = boundedQ[r][0]; const MobilizedBody& mb = M.mob[rb[r]];
+        asmb.lockQ(mb.getMobilizedBodyIndex(), MobilizerQIndex(q - (int)mb.getFirstQIndex(start))); kind[q] = 1; lockedList.push_back(q); }
+    if (variant == 2) { int r = g.below(nR); const MobilizedBody& mb = M.mob[rb[r]]; asmb.lockMobilizer(mb.getMobilizedBodyIndex());
+        int q0 = (int)mb.getFirstQIndex(start); for (int i = 0; i < mb.getNumQ(start); ++i) { kind[q0 + i] = 1; lockedList.push_back(q0 + i); } }
+    if (variant == 3) {   // a bound on one more q, then removed again
+        int b = bodies[nR % (int)bodies.size()]; const MobilizedBody& mb = M.mob[b]; int qi = g.below(mb.getNumQ(start));
+        int q = (int)mb.getFirstQIndex(start) + qi;
+        if (kind[q] == 0) { asmb.restrictQ(mb.getMobilizedBodyIndex(), MobilizerQIndex(qi), start.getQ()[q] - 0.01, start.getQ()[q] + 0.01);
+                            asmb.unrestrictQ(mb.getMobilizedBodyIndex(), MobilizerQIndex(qi)); } }
+    for (int q = 0; q < nq; ++q) if (kind[q] == 2 || (lo[q] > -Infinity)) ranges.push_back({(double)q, lo[q], hi[q]});
+    std::sort(lockedList.begin(), lockedList.end());
+    // which restricted mobilizer the target leaves the box of
+    int which = nR == 0 ? 0 : whichReq; if (which == 2 && nR < 3) which = 1;
+    static const char* wname[] = {"inside", "lowest", "middle", "highest"};
+    int rOut = which == 0 ? -1 : which == 1 ? 0 : which == 3 ? nR - 1 : 1 + g.below(nR - 2);
+    auto makeTarget = [&](double push) { State t = start;
+        for (int q = 0; q < nq; ++q) { if (kind[q] == 1) continue;
+            if (lo[q] > -Infinity) t.updQ()[q] = lo[q] + (hi[q] - lo[q]) * g.range(0.2, 0.8); else t.updQ()[q] = start.getQ()[q] + g.range(-0.15, 0.15); }
+        if (rOut >= 0) for (int q : boundedQ[rOut]) if (kind[q] == 2) t.updQ()[q] = g.coin() ? hi[q] + push : lo[q] - push;
+        M.system.realize(t, Stage::Position); return t; };
+    Markers* markers = new Markers(); std::vector<std::pair<int, Vec3> > mk;
+    for (int b = 1; b <= nb; ++b) for (int j = 0; j < 3; ++j) { Vec3 st = rvec(g, 0.5); markers->addMarker(M.mob[b].getMobilizedBodyIndex(), st, 1.0); mk.push_back({b, st}); }
+    asmb.adoptAssemblyGoal(markers);
+    const std::string cls = std::string("bounds.") + (nRclass < 3 ? std::to_string(nRclass) : std::string("3plus")) + "." + wname[which];
+    Rep rep; rep.a = &asmb; asmb.addReporter(rep);
+    try {
+        asmb.setInternalState(start); asmb.initialize();
+        freeqRecord(asmb, start, lockedList, ranges);
+        State cur = start;
+        for (int mode = 0; mode < 2; ++mode) {             // assemble(), then track() towards a moved target
+            State target = makeTarget(mode == 0 ? g.range(0.2, 0.4) : g.range(0.1, 0.3));
+            Array_<Vec3> obs; for (auto& m : mk) obs.push_back(M.mob[m.first].findStationLocationInGround(target, m.second));
+            markers->moveAllObservations(obs);
+            double initErr = asmb.calcCurrentErrorNorm(), initGoal = asmb.calcCurrentGoal(), ret = NaN; bool threw = false;
+            rep.seen.clear();
+            try { ret = mode == 0 ? asmb.assemble() : asmb.track(); } catch (const std::exception&) { threw = true; }
+            std::vector<std::pair<double, double> > seen = rep.seen;
+            double finalErr = asmb.calcCurrentErrorNorm(), finalGoal = asmb.calcCurrentGoal();
+            State out = cur; asmb.updateFromInternalState(out);
+            std::pair<double, double> post = (threw || seen.empty()) ? std::make_pair(finalErr, finalGoal) : seen.back();
+            vh::Line in = Irec("asm"); in.i(mode).i(0).i((long)seen.size()).i(nq).d(tol).d(initErr).d(initGoal).d(post.first).d(post.second);
+            in.i(threw).d(threw ? 0.0 : ret).d(finalErr).d(finalGoal);
+            for (int i = 0; i < nq; ++i) in.i(kind[i]).d(lo[i]).d(hi[i]).d(cur.getQ()[i]).d(out.getQ()[i]);
+            in.emit(); std::printf("T 0 0\n");
+            vh::Line o = vh::O("asm"); o.i(threw ? 0 : 1).d(threw ? 0.0 : ret).i(1); o.emit();
+            const std::string key = std::string(mode == 0 ? "assemble." : "track.") + cls;
+            vh::D(key + "." + vname[variant] + (threw ? ".FAILED" : ".ok"));
+            if (threw) break;
+            if (mode == 0) gReached = 1;
+            double rangeDev = 0, lockDev = 0; bool active = false;
+            for (int i = 0; i < nq; ++i) { if (kind[i] == 2) { rangeDev = std::max(rangeDev, std::max(lo[i] - out.getQ()[i], out.getQ()[i] - hi[i]));
+                                                               if (std::min(out.getQ()[i] - lo[i], hi[i] - out.getQ()[i]) < 1e-5) active = true; }
+                                           if (kind[i] == 1) lockDev = std::max(lockDev, std::fabs(out.getQ()[i] - start.getQ()[i])); }
+            if (which > 0) vh::D(key + (active ? ".boundActive" : ".boundNotActive"));
+            vh::P("restricted_q_within_bounds", key + ".respected", rangeDev, 1.0000001e-8);
+            vh::P("locked_q_unchanged", key + ".locked", lockDev, 0);
+            vh::P("returned_goal_is_goal_of_state", key + ".goaltruth", std::fabs(ret - finalGoal), 0);
+            vh::P("goal_not_worse_than_start", key + ".notworse", ret - initGoal, mode == 0 ? 0.0 : 1e-12 * (1 + initGoal));
+            if (which == 0 && variant != 1 && variant != 2) vh::P("exact_goal_reaches_zero", key + ".exactgoal", ret, 1e-7);
+            cur = out;
+        }
+    } catch (const std::exception& e) { vh::D("bounds.setupEXC"); }
+    return 0;
+}
+
 // loop constraint (ball or rod) satisfied at `ref`; returns the re-realized reference state of the changed system
 static State addLoop(vh::Rng& g, Model& M, int nb, const State& ref, std::string& tag) {
     int b = nb; Vec3 st = rvec(g, 0.4); Vec3 pG = M.mob[b].findStationLocationInGround(ref, st);
@@ -356,7 +451,7 @@ static int nanCase() {
 #include <sys/wait.h>
 #include <unistd.h>
 #include <signal.h>
-static long gTot[4] = {0, 0, 0, 0}, gGot[4] = {0, 0, 0, 0}, gTimeLimit = 0;
+static long gTot[6] = {0, 0, 0, 0, 0, 0}, gGot[6] = {0, 0, 0, 0, 0, 0}, gTimeLimit = 0;
 template <class F> static void guarded(double limitSec, int cls, const char* what, F f) {
     std::fflush(stdout);
     gTot[cls]++;
@@ -375,6 +470,12 @@ static void oneCase(long long seed, long long k, bool thorough) {
     gSeed = seed; gCase = k;
     if (k < 0) { guarded(20, 3, "nan", [&]() { nanCase(); }); return; }
     vh::Rng g((uint64_t)(seed * 7919 + 43) * 1000003ull + (uint64_t)k);      // independent stream per case: a case is (seed, k)
+    if (k % 5 == 4) {      // every fifth case is a coordinate-bounds case; its class is a function of (seed, k): all classes are guaranteed
+        long long idx = k / 5 + 3 * seed; int nRclass = (int)(idx % 4), which = (int)((idx / 4) % 4), variant = g.below(4);
+        if (nRclass >= 2 && which == 0 && g.coin()) which = 1 + g.below(3);      // more weight on active bounds with several mobilizers
+        guarded(thorough ? 20 : 8, nRclass >= 2 ? 4 : 5, "bounds", [&]() { boundsCase(g, nRclass, which, variant); });
+        return;
+    }
     int stream = g.below(10);
     if (stream < 7) guarded(thorough ? 20 : 6, 0, "asm", [&]() { asmCase(g, thorough); });
     else if (stream < 8) guarded(20, 1, "opf", [&]() { opfCase(g); });
@@ -391,8 +492,8 @@ static void replay() {
         oneCase(seed, k, false);
     }
 }
-static void floorP(const char* what, long got, long total, double minShare) {
-    if (total < 8) return;
+static void floorP(const char* what, long got, long total, double minShare, long minTotal = 8) {
+    if (total < minTotal) { if (minTotal < 8) std::printf("P guaranteed_class_generated floor.%s.count %ld 0\n", what, minTotal - total); return; }
     vh::I("floor").s(what).i(total).i(got).emit(); std::printf("O floor 1\n");
     vh::P("share_of_cases_reaching_result_predicates", std::string("floor.") + what, minShare - (double)got / total, 0.0);
 }
@@ -407,5 +508,7 @@ int main(int argc, char** argv) {
     floorP("asm.reportsSuccess", gGot[0], gTot[0], 0.70);
     floorP("opf.returns", gGot[1], gTot[1], 0.70);
     floorP("lem.returns", gGot[2], gTot[2], 0.50);
+    floorP("bounds.twoOrMoreMobilizers.reportsSuccess", gGot[4], gTot[4], 0.70, 3);
+    floorP("bounds.zeroOrOneMobilizer.reportsSuccess", gGot[5], gTot[5], 0.70, 3);
     return 0;
 }
